@@ -232,11 +232,11 @@ Options:
 		{{- $default := .DefaultFunc}}
 		targets := map[string]string{
 		{{- range .Funcs}}
-			"{{lowerFirst .TargetName}}{{if and (eq .Name $default.Name) (eq .Receiver $default.Receiver)}}*{{end}}": {{printf "%q" .Synopsis}},
+			"{{lowerFirst .TargetName}}{{if and $default.Name (eq .TargetName $default.TargetName)}}*{{end}}": {{printf "%q" .Synopsis}},
 		{{- end}}
 		{{- range .Imports}}{{$imp := .}}
 			{{- range .Info.Funcs}}
-			"{{lowerFirst .TargetName}}{{if and (eq .Name $default.Name) (eq .Receiver $default.Receiver)}}*{{end}}": {{printf "%q" .Synopsis}},
+			"{{lowerFirst .TargetName}}{{if and $default.Name (eq .TargetName $default.TargetName)}}*{{end}}": {{printf "%q" .Synopsis}},
 			{{- end}}
 		{{- end}}
 		}
